@@ -51,7 +51,10 @@ type node struct {
 	budget      uint32
 	hasBudget   bool
 	wantCleared bool
-	wrap        int  // wrappers around it in the slot of its parent (valid while parent != nil)
+	wrap        int   // wrappers around it in the slot of its parent (valid while parent != nil)
+	gen         int   // how often the program replaced its handle (lookup, mutable iteration, reopen)
+	formerP     *node // the container it was detached from, and that container's gen at that moment
+	formerGen   int
 	idxReported bool // the mutableElementIndex oracle has spoken about this array
 	inlReported bool // the inline-rule oracle has spoken about this container
 }
@@ -249,7 +252,29 @@ func topOf(n *node) *node {
 
 // target: may an operation that used to be restricted to the attached family pick n?  With the
 // extended generators it may pick any live container, also one inside a detached subtree.
-func (e *nestEnv) target(n *node) bool { return e.ext || e.attached(n) }
+func (e *nestEnv) target(n *node) bool {
+	if !e.ext {
+		return e.attached(n)
+	}
+	return !e.staleClosure(topOf(n))
+}
+
+// staleClosure: x is a detached container whose handle still carries the callback of its former
+// parent, a MAP, and the program has since replaced its handle of that map (lookup, mutable
+// iteration).  The closure keeps the OLD handle object of the map alive: a second live handle that
+// the program cannot re-fetch away.  If the map's root slab is then replaced through the new handle,
+// the next notification of x walks the stale root (fatal SlabNotFound after the mutation has been
+// applied): known finding F2c, reproduced deterministically by the dualhandle stream.  This stream
+// keeps to ONE live handle object per container (NEST_ASSUME, HandlesCurrent) and therefore leaves
+// such a family alone until x is attached again (which replaces the closure) or the closure is gone.
+// (Array parents are harmless: the detaching Remove / Set erased x from the index of that same
+// handle object, so the closure answers not-found before it touches any slab.)
+func (e *nestEnv) staleClosure(x *node) bool {
+	if !e.ext || x.parent != nil || x == e.root || x.formerP == nil || x.formerP.kind != 'm' {
+		return false
+	}
+	return x.formerP.gen != x.formerGen && x.hasUpdater()
+}
 
 func (e *nestEnv) depth(n *node) int {
 	d := 0
@@ -281,6 +306,10 @@ func nestedStream(cfg *Config) *hx.Stats {
 	nProg := int(16 * cfg.Scale)
 	seen := map[string]bool{}
 	nestedExotic(st, cfg, w) // scripted, model-free: container keys, oversized wrappers (nestedx.go)
+	// registers of the collision programs nest deeper than the cbor library's default bound of 32
+	// (4 collision levels = about 13 CBOR levels per map on the path): the caller's decoder option
+	defer func(old int) { hx.DecNesting = old }(hx.DecNesting)
+	hx.DecNesting = 1024
 	for p := 0; p < nProg && st.HarnessErr == ""; p++ {
 		T := []uint32{256, 512, 1024, 256}[p%4]
 		e := &nestEnv{w: w, st: st, cfg: cfg, rng: rng, T: T, prog: p, ext: true, coll: p%3 == 2}
@@ -704,12 +733,14 @@ func (e *nestEnv) adopt(v atree.Value, want *node, how string) bool {
 			return false
 		}
 		want.arr = x
+		want.gen++
 	case *atree.OrderedMap:
 		if want.kind != 'm' || x.ValueID().String() != want.vid {
 			e.violation("C10", fmt.Sprintf("%s: expected container %d (%s), got map %s", how, want.h, want.vid, x.ValueID()))
 			return false
 		}
 		want.mp = x
+		want.gen++
 	default:
 		e.violation("C10", fmt.Sprintf("%s: expected container %d, got %T", how, want.h, v))
 		return false
@@ -921,6 +952,7 @@ func (e *nestEnv) opReopen() {
 	e.rec = hx.NewRecStorage(e.ps)
 	for i, n := range tops {
 		var err error
+		n.gen++
 		if n.kind == 'a' {
 			n.arr, err = atree.NewArrayWithRootID(e.rec, ids[i])
 		} else {
@@ -1063,6 +1095,10 @@ func (e *nestEnv) opPop() {
 	detached := len(e.detached) > 0 && e.rng.Intn(4) == 0
 	if detached {
 		n = e.detached[e.rng.Intn(len(e.detached))]
+		if e.staleClosure(n) {
+			e.st.Hit("skip-stale-closure-family")
+			return
+		}
 	} else {
 		nonEmpty := func(x *node) bool { return e.attached(x) && len(x.elems)+len(x.kv) > 0 }
 		if e.rng.Intn(4) == 0 {
@@ -1257,6 +1293,10 @@ func (e *nestEnv) opMutate(detached bool) {
 			return
 		}
 		n = e.detached[e.rng.Intn(len(e.detached))]
+		if e.staleClosure(n) {
+			e.st.Hit("skip-stale-closure-family")
+			return
+		}
 		// pick the detached container or something nested in it
 		var cands []*node
 		for _, x := range e.nodes {
@@ -1478,7 +1518,7 @@ func (e *nestEnv) opReattach() {
 	p := e.pickContainer(func(n *node) bool {
 		if e.ext {
 			// anywhere but inside itself, also into another detached subtree
-			return !inSubtree(n, c) && e.depth(n) < 4
+			return !inSubtree(n, c) && e.depth(n) < 4 && e.target(n)
 		}
 		return e.attached(n) && e.depth(n) < 4
 	})
@@ -1772,6 +1812,7 @@ func clip(s string, n int) string {
 // per-element limit minus the wrapper bytes).
 func (e *nestEnv) noteDetached(c, p *node, wrap int) {
 	c.budget, c.hasBudget, c.wantCleared = slotBudget(p, wrap), true, false
+	c.formerP, c.formerGen = p, p.gen
 }
 
 func (n *node) inlinable(budget uint32) bool {
@@ -2035,7 +2076,7 @@ func slotBudget(p *node, wrap int) uint32 {
 func (e *nestEnv) opRewrap(c *node) {
 	if c == nil {
 		c = e.pickContainer(func(x *node) bool {
-			if x.parent == nil {
+			if x.parent == nil || !e.target(x) {
 				return false
 			}
 			if x.kind == 'a' {
@@ -2044,8 +2085,8 @@ func (e *nestEnv) opRewrap(c *node) {
 			return !x.mp.Inlined()
 		})
 	}
-	if c == nil {
-		return
+	if c == nil || c.parent == nil || (c.kind == 'a' && c.arr.Inlined()) || (c.kind == 'm' && c.mp.Inlined()) {
+		return // (an inlined child overwritten by itself is observation O2, not a history of C10)
 	}
 	p := c.parent
 	w := e.w
